@@ -1,8 +1,8 @@
 """C08  Sheet / import encoding precedence; serialised bytes decodable and lossless.
 
-Part 1 (ladder): the complete table  override x top sheet (delivery, @charset) x per import level
-(transport charset x content marker x delivery x fetcher answer)  for import chains up to depth D,
-served by a virtual fetcher.  Every level uses its own encodings and every sheet carries the
+Part 1 (ladder): the complete table  override x top sheet (parseString | parseUrl with/without transport
+charset; text | bytes; BOM | @charset | nothing) x per import level (transport charset x content marker x
+delivery x fetcher answer)  for import chains up to depth D, served by a virtual fetcher.  Every level uses its own encodings and every sheet carries the
 marker bytes C3 A9, which read back as a different string under each of them, so both the
 *reported* encoding and the decoder *actually used* are observed at every level and compared
 with mc.model.ref_ladder:      C08.ladder  C08.override  C08.marker  C08.reported  C08.noraise
@@ -47,8 +47,8 @@ ASSUMPTIONS = [
     'any spelling of a CSS escape (1-6 hex digits, optional white space) is accepted as "written as an escape"',
 ]
 FLOORS = {
-    'quick': {'outcomes': 1500, 'set:ladder_outcomes': 30, 'set:escaped': 240, 'set:rungs_seen': 5, 'counter:p3.sequences': 200},
-    'thorough': {'outcomes': 5000, 'set:ladder_outcomes': 30, 'set:escaped': 240, 'set:rungs_seen': 5, 'counter:p3.sequences': 1000},
+    'quick': {'outcomes': 1500, 'set:ladder_outcomes': 30, 'set:escaped': 500, 'set:rungs_seen': 5, 'counter:p3.sequences': 200},
+    'thorough': {'outcomes': 5000, 'set:ladder_outcomes': 30, 'set:escaped': 500, 'set:rungs_seen': 5, 'counter:p3.sequences': 1000},
 }
 
 WD = 10  # seconds; a healthy case needs a few milliseconds
@@ -83,7 +83,6 @@ TOPS = [['string', d, 0, m] for d in ('text', 'bytes') for m in ('none', 'charse
 def _tops(override):
     """a BOM exists in bytes only; read by a decoder that does not know it, it swallows the @import (see _junk)"""
     return [t for t in TOPS if not (t[3] == 'bom' and (t[1] == 'text' or override or t[2]))]
-
 
 
 def _depth(tier):
@@ -345,6 +344,8 @@ def _chain_case(override, top, levels):
 # Part 2: serialised bytes
 
 TARGETS = ['ascii', 'latin-1', 'cp1252', 'utf-8', 'utf-16']
+# thorough only (single characters): wide without BOM, BOM-writing UTF-8, multi-byte, another alphabet, not ASCII compatible
+MORE_TARGETS = ['utf-32', 'utf-16-be', 'utf-8-sig', 'shift_jis', 'koi8-r', 'cp037']
 CHARS = {'e-acute': 'é', 'euro': '€', 'zhe': 'ж', 'clef': '\U0001d11e', 'c1-control': '\u0081', 'lone-surrogate': '\ud800'}
 INITIAL = {'none': '', 'utf-8': '@charset "utf-8";', 'ascii': '@charset "ascii";'}
 # spelling contexts: how the character sits in its token.  stringish = only where a blank may be part of the token
@@ -394,6 +395,19 @@ POSITIONS = {
     'media-nested': ('@media print { .{T} { content: "{T}" } }', False, lambda s: _of(s, R.MEDIA_RULE).cssRules[0].selectorText, '.{T}', True),
     'font-face': ('@font-face { font-family: "{T}"; src: url({T}.woff) }', False, lambda s: _of(s, R.FONT_FACE_RULE).style.getProperties(all=True)[1].propertyValue[0].uri, '{T}.woff', True),
     'unknown-rule': ('@x-y {T} "{T}";', False, lambda s: _of(s, R.UNKNOWN_RULE).cssText, '@x-y {T} "{T}";', True),
+    'attr-name': ('a[{T}=x] { color: red }', False, lambda s: _styles(s)[0].selectorText, 'a[{T}=x]', True),
+    'pseudo-arg': ('a:lang({T}) { color: red }', False, lambda s: _styles(s)[0].selectorText, 'a:lang({T})', True),
+    'function-name': ('a { width: {T}(1) }', False, lambda s: _p0(s).value, '{T}(1)', True),
+    'dimension-unit': ('a { width: 1{T} }', False, lambda s: _p0(s).value, '1{T}', True),
+    'namespace-prefix': ('@namespace {T} "u";\n{T}|a { color: red }', False, lambda s: _styles(s)[0].selectorText, '{T}|a', True),
+    'descendant': ('.{T} b { color: red }', False, lambda s: _styles(s)[0].selectorText, '.{T} b', True),
+    'compound': ('.{T}.b:hover { color: red }', False, lambda s: _styles(s)[0].selectorText, '.{T}.b:hover', True),
+    'child': ('.{T}>b { color: red }', False, lambda s: _styles(s)[0].selectorText, '.{T} > b', True),
+    'page-name': ('@page {T} { margin: 0 }', False, lambda s: _of(s, R.PAGE_RULE).selectorText, '{T}', True),
+    'import-name': ('@import "x.css" print "{T}";', True, lambda s: _of(s, R.IMPORT_RULE).name, '{T}', True),
+    'before-priority': ('a { font-family: {T} !important }', False, lambda s: _p0(s).propertyValue[0].value, '{T}', True),
+    'string-with-escaped-quotes': ('a { content: "\\"{T}\\"" }', True, lambda s: _p0(s).propertyValue[0].value, '"{T}"', True),
+    'value-list': ('a { font-family: {T}, {T} {T} }', False, lambda s: _p0(s).value, '{T}, {T} {T}', True),
 }
 
 
@@ -609,9 +623,13 @@ def _bytes_case(position, context, chars, target, initial):
     return {'kind': 'bytes', 'position': position, 'context': context, 'chars': list(chars), 'target': target, 'initial': initial}
 
 
-def _char_sets(tier):
+def _targets(tier):
+    return TARGETS if tier == 'quick' else TARGETS + MORE_TARGETS
+
+
+def _char_sets(tier, target):
     singles = [[c] for c in CHARS]
-    if tier == 'quick':
+    if tier == 'quick' or target in MORE_TARGETS:
         return singles
     return singles + [[a, b] for a in CHARS for b in CHARS if a != b]
 
@@ -684,7 +702,7 @@ def bounds(tier):
         'ladder_content_by_level': E_CONTENT[:_depth(tier)],
         'ladder_marker_bytes': MARK.hex(),
         'ladder_depth_completed': _depth(tier),
-        'bytes_targets': TARGETS,
+        'bytes_targets': _targets(tier),
         'bytes_characters': {k: 'U+%04X' % ord(v) for k, v in CHARS.items()},
         'bytes_character_tuples': 1 if q else 2,
         'bytes_positions': sorted(POSITIONS),
@@ -703,7 +721,7 @@ def plan(tier):
             for ri in range(len(ROWS)):
                 shards.append(['ladder', override, top, ri])
     for pos in POSITIONS:
-        for target in TARGETS:
+        for target in _targets(tier):
             shards.append(['bytes', pos, target])
     for si in range(len(SEQ_STARTS)):
         for v in range(len(SEQ_VALUES)):
@@ -729,7 +747,7 @@ def run_shard(shard, tier, seed):
         for ctx, (_, only_stringish) in CONTEXTS.items():
             if only_stringish and not stringish:
                 continue
-            for chars in _char_sets(tier):
+            for chars in _char_sets(tier, target):
                 if len(chars) == 2 and ctx in ('doubled',):
                     continue
                 for initial in INITIAL:
